@@ -363,6 +363,8 @@ def walker(ck, R, fn, rule, cb):
                 bad = 'area %s gets %s, expected the buffer cursor' % (cb, fmt(e.args[1]))
             off, cnt = L(strip_cast(e.args[2])), L(strip_cast(e.args[3]))
             area_ptr = e.args[0]
+            if strip_cast(area_ptr) != ar:
+                bad = bad or ('area %s is invoked on %s, not on the area that was looked up for the cursor (%s)' % (cb, fmt(area_ptr), fmt(ar)))
             base, size = L(('f', area_ptr, 'base')), L(('f', area_ptr, 'size'))
             if not ((off - (L(ha) - base)).is_const() and (off - (L(ha) - base)).c == 0):
                 bad = 'offset passed is %s, expected cursor - base' % off
@@ -370,6 +372,45 @@ def walker(ck, R, fn, rule, cb):
                 bad = 'count passed is %s, step is %s' % (cnt, step)
             if not eng.entails(facts + [lin.le(base, L(ha))], off + cnt - size):
                 bad = 'offset + count <= area size not entailed'
+            # size_t differences inside offset/count must have ordered operands (cursor inside the area that was looked up:
+            # established by the hole check before the unsafe walkers run), otherwise the count wraps to a huge value
+            inarea = [lin.le(base, L(ha)), lin.le(L(ha) + 1, base + size)]
+            for tname, tt in (('count', strip_cast(e.args[3])), ('offset', strip_cast(e.args[2]))):
+                for st_ in sym.subterms(tt):
+                    if st_[0] == '-' and not eng.entails(facts + inarea, L(st_[2]) - L(st_[1])):
+                        bad = bad or ('the %s handed to the area %s contains the unsigned difference %s whose operands are not ordered for a cursor inside the area: it wraps'
+                                      % (tname, cb, fmt(st_)))
+            if not eng.entails(facts + inarea, Lin.const(1) - cnt):
+                bad = bad or 'the step %s may be 0: the walk makes no progress' % cnt
+            # the callback's verdict: anything but success ends the walk and is returned
+            CODE = ('fv', e.result, 'code')
+            fail_possible = eng.feasible(p.cond_terms() + [('cmp', '!=', CODE, C(0))])
+            if fail_possible:
+                bad = bad or 'the walk continues after area %s although its result may be a failure (result code not tested against success)' % cb
+    # in-loop returns hand back the callback's failure; completion needs rest == 0 and reports success
+    ndone = 0
+    for p in ps:
+        if p.end != 'return' or not p.loops:
+            continue
+        lmap = p.loops[-1][1]
+        rk = [k for k, (h, pre) in lmap.items() if pre == N]
+        calls = [e for e in p.effects if e.kind == 'icall' and cb and e.name.endswith(cb)]
+        if calls:
+            r = calls[-1].result
+            if strip_cast(p.ret) != r or not any(c[0] == 'cmp' and c[1] == '!=' and sym.contains(c[2], r) and c[3] == C(0) for c in p.cond_terms()):
+                bad = bad or 'the walk is left from inside an iteration with %s under {%s}: only a failure of the area %s may end it, and that failure is what is returned' % (
+                    fmt(p.ret), '; '.join(fmt(c) for c in p.cond_terms()[-2:])[:160], cb)
+            continue
+        if len(rk) == 1 and not p.calls('ra_find_area_by_addr'):
+            ndone += 1
+            z = L(lmap[rk[0]][0])
+            if not (eng.entails(p, z) and eng.entails(p, -z)):
+                bad = bad or 'the walk completes under {%s} while atoms may remain' % '; '.join(fmt(c) for c in p.cond_terms()[-2:])
+            code = dict(p.ret[2]).get('code') if p.ret is not None and p.ret[0] == 'struct' else None
+            if cb is not None and code != C(0):
+                bad = bad or 'completion does not report success (%s)' % fmt(p.ret)
+    if cb is not None and ndone == 0:
+        bad = bad or 'no completion path'
     ck.verdict(bad is None and nit >= 1, rule, fn + ':walk', where,
                'cursor, buffer and remaining count advance together by min(area end - cursor, rest); the area callback gets (area, buffer cursor, cursor - base, step) inside the area'
                if bad is None and nit else (bad or 'no walk iteration recognised'))
